@@ -449,9 +449,15 @@ def doAllin (g : Game) (i : Nat) : Game :=
 def doFold (g : Game) (i : Nat) : Game :=
   (g.modP i fun p => { p with fold := true, acted := true }).resume
 
+/-- the wager of seat `i` (0 when there is no such seat) -/
+def wagerOf (g : Game) (i : Nat) : Int := ((g.players[i]?).map (·.wager)).getD 0
+
+/-- `PreviousRaiseSize = p.state.Wager`: the size of the bet is what was actually put in. -/
+def recordBet (g : Game) (i : Nat) : Game := g.setPrev (g.wagerOf i)
+
 /-- player.go: `Bet` (after its guards). -/
 def doBet (g : Game) (i : Nat) (x : Int) : Game :=
-  ((((g.setActed i).pay i x true)).setPrev x).resume
+  ((((g.setActed i).pay i x true)).recordBet i).resume
 
 /-- player.go: `Raise` once the request is known to be a proper raise. -/
 def doRaise (g : Game) (i : Nat) (p : Player) (x : Int) : Game :=
